@@ -32,7 +32,8 @@ func HarnessC13Options() {
 	// the page's own URL (its pager is built for it), a directory URL, and a URL
 	// whose path has percent-encoded and non-ASCII characters
 	own := []string{"http://h.t/a?page=2", "http://h.t/story/2", "http://h.t/plain/", "http://h.t/list?cat=2&page=2", "http://h.t/archive?page=2", "http://h.t/x/2"}[pi]
-	urlStr := []string{own, "http://h.t/dir/", "http://h.t/caf%C3%A9/a%20b/2"}[vx.Choose("urlform", 3)]
+	// (round k) a URL with userinfo, and one whose escaped path is not canonical
+	urlStr := []string{own, "http://h.t/dir/", "http://h.t/caf%C3%A9/a%20b/2", "http://user:pw@h.t/story/2", "http://h.t/a%2Fb/caf%c3%a9/2"}[vx.Choose("urlform", 5)]
 	mk := func() *Options {
 		o := &Options{}
 		if withURL {
